@@ -1321,11 +1321,10 @@ func (g *pgGen) step() {
 			switch s.kind {
 			case "r", "rw":
 				rq.gkey = fmt.Sprintf("read:%s@%d+%d", s.path, off, n)
-			case "w":
-				rq.gkey = fmt.Sprintf("write:%s@%d+%d", s.path, off, n)
-				rq.op = "READ(write-handle)"
+			case "w": // refused since the wrong-kind fix (before it: WriteAt of zeros; the scheduler then falls back to the idle rule)
+				rq.cls, rq.op = pgClsRWFree, "READ(write-handle)"
 			case "dir":
-				rq.op = "READ(dir-handle)"
+				rq.cls, rq.op = pgClsRWFree, "READ(dir-handle)"
 			}
 		} else {
 			rq.op = "READ(bad-handle)"
@@ -1363,10 +1362,9 @@ func (g *pgGen) step() {
 			case "r":
 				off = uint64(r.Intn(s.size)) // inside the file, where the backend's ReadAt succeeds
 				rq.off = off
-				rq.gkey = fmt.Sprintf("read:%s@%d+%d", s.path, off, n)
-				rq.op = "WRITE(read-handle)"
+				rq.cls, rq.op = pgClsRWFree, "WRITE(read-handle)"
 			case "dir":
-				rq.op = "WRITE(dir-handle)"
+				rq.cls, rq.op = pgClsRWFree, "WRITE(dir-handle)"
 			}
 		} else {
 			rq.op = "WRITE(bad-handle)"
@@ -1474,9 +1472,6 @@ func (g *pgGen) step() {
 			switch g.pr.slots[si].kind {
 			case "dir":
 				rq.cls = pgClsCmdGated
-			case "r", "w":
-				rq.cls = pgClsCmdGated
-				rq.op = "READDIR(file-handle)"
 			default:
 				rq.op = "READDIR(file-handle)"
 			}
